@@ -234,7 +234,7 @@ func (g *genState) next(h *histRun, i int) *hop {
 		x := rng.Float64()
 		// the optional "empty" replica (last one, when present with log id L) is never appended to
 		appendable := g.nReps
-		if nr > g.nReps && h.w.reps[g.nReps].logID == "M" {
+		if nr > g.nReps && h.w.reps[g.nReps].logID == "M" && !h.w.reps[g.nReps].opened {
 			appendable = g.nReps + 1 // the foreign-id replica may be appended to
 		}
 		switch {
